@@ -360,7 +360,7 @@ func main() {
 			var storedAbs absObj
 			steps := 3 + rng.Intn(6)
 			for s := 0; s < steps; s++ {
-				sub := absObj{Spec: pick("s1", "s2"), Status: pick("t0", "t1", "t2"), Labels: pick("l0", "l1"), Ann: pick("a0", "a1", "a2"),
+				sub := absObj{Spec: pick("s1", "s2"), Status: pick("t0", "t1", "t2"), Labels: pick("l0", "l1", "l2"), Ann: pick("a0", "a1", "a2"),
 					Fin: pick("f0", "f1"), Gen: int64(rng.Intn(2) * 7)}
 				if kind == "uc" {
 					sub.Status = "t0"
